@@ -31,6 +31,15 @@ func setupC03(x *Ctx) {
 		mode = "timely"
 		lat := []time.Duration{0, time.Millisecond, 50 * time.Millisecond, 400 * time.Millisecond}[x.Choose("latency", 4)]
 		x.Net.Latency = func(*simnet.Conn) time.Duration { return lat }
+		// decisions that fall into a prolongation round trip (request at 30 s, 60 s+...
+		// after the remote's hello; the answer is one round trip later)
+		if x.Chance("decide-around-prolongation", 0.35) {
+			round := time.Duration(30*(1+x.Choose("prolong-round", 3))) * time.Second
+			delay = round + time.Duration(x.Choose("in-rtt", 9))*lat/2 - lat
+			if delay < 0 {
+				delay = round
+			}
+		}
 	} else {
 		x.Net.Latency = func(*simnet.Conn) time.Duration {
 			return arbitraryLatencies[x.S.ChooseBiased("latency", len(arbitraryLatencies), 0.5)]
